@@ -7,6 +7,11 @@ V = "/verif"
 PY = "/venv/bin/python"
 
 CHECKS = {
+ "C19": dict(cat="model_checking", technique="TLC evaluates the vocabulary rules (spec/VocabRules.tla) on constants extracted from the current tree; the finite slot product enumerated exhaustively by TLC (spec/SlotProbe.tla) is replayed through loads/dumps/loads/validate; create() x versions",
+   text="Part 1: TLC evaluates twelve rules relating the grammar's block types, the tokens.py / parser.py tables and the schemas (block type <-> schema, singleton vs plural storage in every parent schema, object-list keys, repeated keywords, SYMBOL first-keyword table, printer assertion) and emits the offenders. Part 2: every point of type x (root | parent context) x keyword x value alternative x position (about 6.8k probes) is rendered with a schema-valid representative in MapServer's spelling and must load, print with the keyword found by the printer's schema lookup, re-load and validate. Part 3: create(type, version) for 19 types x 8 versions must print, re-load and validate apart from missing-required messages (every declared default valid for its own keyword). The product is enumerated exhaustively.",
+   note="Trusted: TLC, harness/vocab.py extraction (stdlib only, own $ref resolver), ValidRenderer value selection, reference schema evaluation (representatives the reference itself rejects make no validate claim). Parent contexts are one level (every (parent, key) pair of the schemas).",
+   ref="7/C19"),
+
  "C07": dict(cat="model_checking", technique="TLA+ fault machine (spec/Faults.tla): TLC-generated documents + injected faults + verdict-preserving variants with the predicted message names, replayed into validate; reference schema evaluation as filter and emptiness oracle",
    text="TLC emits documents with 0..2 faults of seven kinds (enum-outside, below-min, above-max, wrong-arity, wrong-type, element-wrong-type inside list-valued keywords, unknown-keyword, missing-required) at any depth / list index, one of five variants (none, upper-case keys, upper-case values, hidden keys, list of roots) and the names the messages must carry; the harness renders a schema-valid document with slot-aware values, loads it, injects through the dict API and checks: validate returns; no fault => no message; every predicted name is named; the variant leaves the verdict unchanged; emptiness equals the reference evaluation of the published schema; the module-level API accepts a valid minimal document of every root type.",
    note="Trusted: TLC, jsonschema Draft4 evaluated with an own file registry (the property defines the verdict as schema conformance; documents the reference rejects before injection or still accepts after it are discarded and counted, > 50% discards is a machinery failure), harness/faults.py value selection.",
